@@ -93,7 +93,44 @@ def afterFirstErrX : List String → List String
 `C07_first_error_final_any_consumer`; the property text only forbids yielding anything more) -/
 def quietTok (t : String) : Bool := t = "n" || (tokKind t = 'T' && !isErrTok t)
 
+def unTok (prost : Bool) : UnOut Bytes → String
+  | .fuel => "Ufuel"
+  | .ok k m => s!"U{k}:m" ++ hexBare m
+  | .err k e => s!"U{k}:" ++ stTok prost "e" e
+  | .missing k => s!"U{k}:e13:t"
+
+/-- `xdec <F…v…> Ou <case>`: the whole call through `client::Grpc::unary` (a response) or
+`server::Grpc::unary` (a request).  The spec verdict: the call returns (never hangs or panics); a
+message it hands over is the FIRST valid message of the input; a body that the reference decoder
+refuses or finds truncated makes the call fail with the demanded code (`trailers()` drains the
+whole body, so a refusal anywhere fails the call). -/
+def handleU (rest obs : List String) : String × String :=
+  match parseDecCase rest with
+  | some c =>
+    let u := Dec.unaryCall (tableCodec c.tab c.prost c.ptab) c.cfg (fuelOf c) Dec.init c.evs
+    let m := String.intercalate " " [unTok c.prost u, "a0"]
+    let vp := validPrefix c
+    let calls := obs.filter (fun t => tokKind t ≠ 'a')
+    let got : Option Bytes := match calls with
+      | [t] => (match t.splitOn ":" with
+                | [_, r] => if tokKind r = 'm' then unhexBare (r.drop 1).toString else none
+                | _ => none)
+      | _ => none
+    let isMsg := match calls with | [t] => (match t.splitOn ":" with | [_, r] => tokKind r = 'm' | _ => false) | _ => false
+    let errCode : Option Nat := match calls with
+      | [t] => (match t.splitOn ":" with | [_, e, _] => if tokKind e = 'e' then (e.drop 1).toString.toNat? else none | _ => none)
+      | _ => none
+    (m, verdict [("no-panic-no-hang", !obs.any isBad), ("no-lost-wakeup", noLostWakeup obs),
+                 ("every-call-completes", calls.length == 1 && calls.all (fun t => tokKind t = 'U')),
+                 ("messages-are-valid-prefix-of-input", !isMsg || (got.isSome && got == vp.head?)),
+                 ("malformed-or-truncated-frame-yields-an-error-not-a-clean-end",
+                    match demanded c with
+                    | some (_, code) => errCode == some code
+                    | none => true)])
+  | none => bad
+
 def handleX (flv ops : String) (rest obs : List String) : String × String :=
+  if ops = "Ou" then (if tokKind flv = 'F' then handleU rest obs else bad) else
   match parseDecCase rest, parseOps ops with
   | some c, some ops =>
     if tokKind flv ≠ 'F' then bad else
